@@ -1386,21 +1386,92 @@ func r04DecisionTable(c *core.Ctx) {
 	// (d) the consumer loop, matched by structure and object identity (not by names)
 	{
 		var loop *ast.RangeStmt
-		ast.Inspect(f.Decl.Body, func(n ast.Node) bool {
-			if r, ok := n.(*ast.RangeStmt); ok && core.TypeShort(sliceElem(info.TypeOf(r.X))) == "pointindex.quadrantToCheck" {
-				loop = r
-			}
-			return true
-		})
+		findLoop := func(fn *core.Func) *ast.RangeStmt {
+			var l *ast.RangeStmt
+			ast.Inspect(fn.Decl.Body, func(n ast.Node) bool {
+				if r, ok := n.(*ast.RangeStmt); ok && core.TypeShort(sliceElem(fn.Pkg.TypesInfo.TypeOf(r.X))) == "pointindex.quadrantToCheck" {
+					l = r
+				}
+				return true
+			})
+			return l
+		}
+		loop = findLoop(f)
+		consumer := f
 		okLoop := false
 		why := "no loop over quadrantsToCheck"
+		handoff := true
+		if loop == nil {
+			// the consuming phase in a helper: f must hand it its own quadrants map and the list just built, and
+			// return what it returns
+			ast.Inspect(f.Decl.Body, func(n ast.Node) bool {
+				call, ok := n.(*ast.CallExpr)
+				if !ok || loop != nil {
+					return true
+				}
+				cal := core.Callee(info, call)
+				if cal == nil {
+					return true
+				}
+				h := c.P.ByObj[cal.Origin()]
+				if h == nil || h == builder || h.Decl.Body == nil || h.Pkg != f.Pkg {
+					return true
+				}
+				if l := findLoop(h); l != nil {
+					hs := h.Obj.Type().(*types.Signature)
+					fq := f.Obj.Type().(*types.Signature).Params().At(1)
+					mapOK, listOK := false, false
+					for i, a := range call.Args {
+						if i >= hs.Params().Len() {
+							break
+						}
+						if core.ObjOf(info, a) == fq && strings.HasPrefix(hs.Params().At(i).Type().String(), "map[") {
+							mapOK = true
+						}
+						if core.TypeShort(sliceElem(hs.Params().At(i).Type())) == "pointindex.quadrantToCheck" && core.ObjOf(h.Pkg.TypesInfo, l.X) == hs.Params().At(i) {
+							// the argument is the builder's result
+							arg := ast.Unparen(a)
+							if o := core.ObjOf(info, arg); o != nil {
+								if def := singleDef(info, f.Decl.Body, o); def != nil {
+									arg = ast.Unparen(def)
+								}
+							}
+							if bc, ok := arg.(*ast.CallExpr); ok {
+								if bcal := core.Callee(info, bc); bcal != nil && c.P.ByObj[bcal.Origin()] == builder {
+									listOK = true
+								}
+							} else if builder == f {
+								listOK = true
+							}
+						}
+					}
+					returned := false
+					if last, ok := f.Decl.Body.List[len(f.Decl.Body.List)-1].(*ast.ReturnStmt); ok && len(last.Results) == 1 && ast.Unparen(last.Results[0]) == ast.Expr(call) {
+						returned = true
+					}
+					loop, consumer = l, h
+					handoff = mapOK && listOK && returned
+				}
+				return true
+			})
+		}
 		if loop != nil {
+			f := consumer
+			info := f.Pkg.TypesInfo
+			var quadrantsParam types.Object
+			{
+				sig := f.Obj.Type().(*types.Signature)
+				for i := 0; i < sig.Params().Len(); i++ {
+					if m, ok := sig.Params().At(i).Type().Underlying().(*types.Map); ok && core.TypeShort(m.Elem()) == "pointindex.Quadrant" {
+						quadrantsParam = sig.Params().At(i)
+					}
+				}
+			}
 			v := core.ObjOf(info, loop.Value)
 			fieldOf := func(e ast.Expr, name string) bool {
 				sel, ok := ast.Unparen(e).(*ast.SelectorExpr)
 				return ok && sel.Sel.Name == name && core.ObjOf(info, sel.X) == v && v != nil
 			}
-			quadrantsParam := f.Obj.Type().(*types.Signature).Params().At(1)
 			var flag, okVar, qVar, foundVar types.Object
 			skipMutex, lookup, skipAbsent, report, setFlag := false, false, false, false, false
 			for _, st := range loop.Body.List {
@@ -1454,8 +1525,8 @@ func r04DecisionTable(c *core.Ctx) {
 			if last, ok := f.Decl.Body.List[len(f.Decl.Body.List)-1].(*ast.ReturnStmt); ok && len(last.Results) == 1 {
 				retOK = foundVar != nil && core.ObjOf(info, last.Results[0]) == foundVar
 			}
-			okLoop = skipMutex && lookup && skipAbsent && report && setFlag && retOK && !hasJump(loop.Body, token.BREAK, token.RETURN, token.GOTO).IsValid()
-			why = fmt.Sprintf("mutex-skip=%v lookup-by-quadrant=%v skip-absent=%v certain-or-intersects-appends=%v mutex-set=%v returns-list=%v", skipMutex, lookup, skipAbsent, report, setFlag, retOK)
+			okLoop = skipMutex && lookup && skipAbsent && report && setFlag && retOK && handoff && !hasJump(loop.Body, token.BREAK, token.RETURN, token.GOTO).IsValid()
+			why = fmt.Sprintf("mutex-skip=%v lookup-by-quadrant=%v skip-absent=%v certain-or-intersects-appends=%v mutex-set=%v returns-list=%v handed-own-map-and-built-list=%v", skipMutex, lookup, skipAbsent, report, setFlag, retOK, handoff)
 		}
 		c.Check(R, "consumer-loop/"+f.Name, f.Decl.Pos(), okLoop, "a quadrant is reported iff it has points and (certain or lineIntersects(line, its extent)), honouring the mutex; the reported list is returned", "the loop consuming the decision table changed shape: "+why)
 	}
